@@ -2,6 +2,7 @@
 package store
 
 import (
+	"bytes"
 	"context"
 	"crypto/rand"
 	"encoding/base64"
@@ -473,30 +474,33 @@ func repoGarbageCollect(repo Repo, conf config.Config, index types.Index, locked
 			continue
 		}
 		seen[d.Digest] = true
+		// parse manifests for descriptors (manifests, config, layers)
 		if types.MediaTypeIndex(d.MediaType) || types.MediaTypeImage(d.MediaType) {
 			walked[d.Digest] = true
-		}
-		// parse manifests for descriptors (manifests, config, layers)
-		if types.MediaTypeIndex(d.MediaType) {
-			man := types.Index{}
-			err = json.NewDecoder(br).Decode(&man)
+			// the media type is the claim of the entry listing the digest, an index may list an image as an index or the reverse,
+			// and a manifest is walked only once: read the blob as both, an image has no manifests and an index no config or layers
+			raw, err := io.ReadAll(br)
 			errClose := br.Close()
 			if err != nil || errClose != nil {
 				continue
 			}
-			for _, child := range man.Manifests {
-				manifests = append(manifests, child.Copy())
-			}
-		} else if types.MediaTypeImage(d.MediaType) {
-			man := types.Manifest{}
-			err = json.NewDecoder(br).Decode(&man)
-			errClose := br.Close()
-			if err != nil || errClose != nil {
+			manIndex := types.Index{}
+			manImage := types.Manifest{}
+			errIndex := json.NewDecoder(bytes.NewReader(raw)).Decode(&manIndex)
+			errImage := json.NewDecoder(bytes.NewReader(raw)).Decode(&manImage)
+			if errIndex != nil && errImage != nil {
 				continue
 			}
-			seen[man.Config.Digest] = true
-			for _, layer := range man.Layers {
-				seen[layer.Digest] = true
+			if errIndex == nil {
+				for _, child := range manIndex.Manifests {
+					manifests = append(manifests, child.Copy())
+				}
+			}
+			if errImage == nil {
+				seen[manImage.Config.Digest] = true
+				for _, layer := range manImage.Layers {
+					seen[layer.Digest] = true
+				}
 			}
 		} else {
 			// unknown media type listed in an index, treat it as a blob
